@@ -5,11 +5,17 @@
 
    What the bytes must be is computed by the extracted Coq definitions of
    coq/extract/Extract_realloop.v only:
+     expected after the key history  = Pipeline.device_bytes_out L (bytes written to the keyboard descriptor)
+                                                                        [C10_bytes_out_depend_only_on_events_read,
+                                                                         C18_virtual_keyboard_sees_mapper_outputs]
+     expected after a tablet-switch On = Pipeline.device_bytes_tablet_on L (the same bytes)
+                                                                        [Pipeline.pipeline_bytes_then_tablet_event]
+   whatever the batching of the input into write(2) calls.  For the statistics and
+   the SAMPLE lines also
      history  = Wire.decode_stream (bytes written to the keyboard descriptor)
      sends    = filter non_nil (mrun L init (map IEv history))          [C10_sends_are_mapper_outputs]
                 ++ filter non_nil (mrun L _ [IReleaseAll]) if a tablet-switch On was written
-     expected = concat (map Wire.encode_batch sends)                    [C18_wellformed]
-   whatever the batching of the input into write(2) calls.
+   (device_bytes_out = concat (map Wire.encode_batch sends): C10_device_bytes_out_is).
 
    Verdicts, one line each:
      MONITOR case=.. clause=C10.real_epoll ..   key events lost / duplicated / reordered, output after the
@@ -257,10 +263,13 @@ let () =
          else if not (x_for_layout_ok c.layout) then
            Buffer.add_string out (Printf.sprintf "DIFF case=%s class=OBS_C10 at=0 impl=for_layout_accepts model=for_layout_panics\n" c.id)
          else begin
-           let h = x_history (n_list_of_string inb) in
+           let inb_n = n_list_of_string inb in
+           let h = x_history inb_n in
            key_events := !key_events + List.length h; model_steps := !model_steps + List.length h + (if c.tablet then 1 else 0);
            let (s1, s2) = x_sends c.layout h c.tablet in
-           let exp1 = string_of_n_list (x_bytes_of_sends s1) and exp2 = string_of_n_list (x_bytes_of_sends s2) in
+           (* the object of the pipeline theorems, not a recomposition of it *)
+           let exp1 = string_of_n_list (x_device_bytes_out c.layout inb_n)
+           and exp2 = if c.tablet then string_of_n_list (x_device_bytes_tablet_on c.layout inb_n) else "" in
            let impl1 = string_of_n_list (x_bytes_of_sends c.impl_sends)
            and impl2 = string_of_n_list (x_bytes_of_sends (if c.impl_rel = [] then [] else [c.impl_rel])) in
            sends := !sends + List.length s1 + List.length s2;
